@@ -320,3 +320,107 @@ def gen_xpath_case(r):
         src = byte_mutate(r, src).replace(b"\x00", b"")
     enc = r.choice([None, None, "UTF-8", "ISO-8859-1", "US-ASCII", "UTF-16", "nonexistent", ""])
     return eb, src, enc
+
+
+# ---------------------------------------------------------------------------------------------------------------------
+# one compiled stylesheet used twice on the same transformer: first run aborts half-way when $fail is true
+
+FAIL_ACTIONS = [
+    "<xsl:if test='$fail'><xsl:message terminate='yes'>stop</xsl:message></xsl:if>",
+    "<xsl:if test='$fail'><xsl:value-of xmlns:inj='urn:c03' select=\"inj:throw('XPathParserException')\"/></xsl:if>",
+    "<xsl:if test='$fail'><xsl:value-of xmlns:inj='urn:c03' select=\"inj:throw('XalanDOMException')\"/></xsl:if>",
+    "<xsl:if test='$fail'><xsl:value-of xmlns:inj='urn:c03' select=\"inj:throw('xerces_SAXException')\"/></xsl:if>",
+    "<xsl:if test='$fail'><xsl:value-of xmlns:inj='urn:c03' select=\"inj:throw('xerces_RuntimeException')\"/></xsl:if>",
+    "<xsl:if test='$fail'><xsl:value-of xmlns:inj='urn:c03' select=\"inj:throw('std_bad_alloc')\"/></xsl:if>",
+    "<xsl:if test='$fail'><xsl:value-of xmlns:inj='urn:c03' select=\"inj:throw('xerces_OutOfMemoryException')\"/></xsl:if>",
+]
+
+
+def reuse_stylesheets(fa):
+    """stylesheets whose failure point sits inside a construct that keeps per-transformation state"""
+    P = "<xsl:param name='fail' select='false()'/>"
+    return [
+        # attribute sets (recursion detector stack), nested and merged
+        sty("<xsl:template match='/'><o xsl:use-attribute-sets='s'><xsl:element name='e' use-attribute-sets='s t'/><xsl:for-each select='//b'>"
+            "<xsl:copy use-attribute-sets='t'/></xsl:for-each></o></xsl:template>",
+            top=P + "<xsl:attribute-set name='s' use-attribute-sets='t'><xsl:attribute name='a'>" + fa + "v</xsl:attribute></xsl:attribute-set>"
+            "<xsl:attribute-set name='t'><xsl:attribute name='b'>w</xsl:attribute></xsl:attribute-set>"),
+        sty("<xsl:template match='/'><o><xsl:element name='e' use-attribute-sets='s'/></o></xsl:template>",
+            top=P + "<xsl:attribute-set name='s' use-attribute-sets='t'><xsl:attribute name='a'>v</xsl:attribute></xsl:attribute-set>"
+            "<xsl:attribute-set name='t'><xsl:attribute name='b'>" + fa + "w</xsl:attribute></xsl:attribute-set>"),
+        # sort + variables + pending element
+        sty("<xsl:template match='/'><o><xsl:for-each select='//b'><xsl:sort select='.' order='descending'/><xsl:variable name='v' select='.'/>"
+            "<p x='{$v}'><xsl:if test='position() = 2'>" + fa + "</xsl:if><xsl:value-of select='$v'/></p></xsl:for-each></o></xsl:template>", top=P),
+        # keys + number counters
+        sty("<xsl:template match='/'><o><xsl:for-each select=\"key('k','t') | key('k','u') | //c/b\"><xsl:number level='any' count='b'/>"
+            "<xsl:if test='position() = 2'>" + fa + "</xsl:if>,</xsl:for-each><xsl:number level='multiple' count='a|b' format='1.1'/></o></xsl:template>",
+            top=P + "<xsl:key name='k' match='b' use='.'/>"),
+        # result tree fragment, copy-of, nested templates with parameters, text output
+        sty("<xsl:template match='/'><xsl:variable name='f'><x><xsl:apply-templates select='//a'><xsl:with-param name='q' select='7'/></xsl:apply-templates></x>"
+            "</xsl:variable><o><xsl:copy-of select='$f'/><xsl:value-of select=\"format-number(count(//b), '#,##0.0', 'd')\"/></o></xsl:template>"
+            "<xsl:template match='a'><xsl:param name='q'/><y q='{$q}'><xsl:if test=\"@x = '2'\">" + fa + "</xsl:if><xsl:value-of select='@x'/></y></xsl:template>",
+            top=P + "<xsl:decimal-format name='d' decimal-separator='!' grouping-separator='_'/><xsl:output method='xml' indent='yes' cdata-section-elements='y'/>"),
+    ]
+
+
+def gen_reuse_case(r):
+    """-> (stylesheet bytes, source bytes, params A, params B)   params = list[(name, expr)]"""
+    fa = r.choice(FAIL_ACTIONS)
+    s = r.choice(reuse_stylesheets(fa))
+    src = SOURCES[1]
+    order = r.weighted([("fail-then-ok", 8), ("ok-then-ok", 1), ("fail-then-fail", 1)])
+    A = [("fail", "true()" if order != "ok-then-ok" else "false()")]
+    B = [("fail", "true()" if order == "fail-then-fail" else "false()")]
+    return s.encode("utf-8"), src.encode("utf-8"), A, B
+
+
+SEP_POOL = [",", ".", "_", "|", ":", "~", "!", "@", "^", "*", "=", "/", "?", "$", "&amp;", "x", "y", "z", "q", "w", " "]
+
+
+def gen_decfmt_case(r, nmin=11, nmax=16):
+    """a stylesheet with more decimal-formats than the ICU functor caches (10), each with its own symbols, used in random order, twice"""
+    n = r.range(nmin, nmax)
+    fmts = []
+    used = set()
+    for i in range(n):
+        while True:
+            d, g = r.choice(SEP_POOL), r.choice(SEP_POOL)
+            if d != g and (d, g) not in used:
+                used.add((d, g))
+                break
+        extra = r.choice(["", " minus-sign='m'", " NaN='nan%d'" % i, " infinity='inf%d'" % i, " percent='p' per-mille='r'", " zero-digit='0' digit='#'"])
+        fmts.append((i, d, g, extra))
+    top = "".join("<xsl:decimal-format name='d%d' decimal-separator='%s' grouping-separator='%s'%s/>" % f for f in fmts)
+    body = []
+    order = r.shuffle(list(range(n))) + r.shuffle(list(range(n)))
+    for i in order:
+        _, d, g, _ = fmts[i]
+        val = r.choice(["1234567.891", "-0.5", "0", "1 div 0", "0 div 0", "12.3456", "1000000000000000 div 7"])
+        body.append("<v><xsl:value-of select=\"format-number(%s, '#%s##0%s0#', 'd%d')\"/></v>" % (val, g, d, i))
+    s = sty("<xsl:template match='/'><o>" + "".join(body) + "</o></xsl:template>", top=top)
+    return s.encode("utf-8"), b"<r/>"
+
+
+def recursion_stylesheet(kind):
+    """terminating template recursion of depth $n (call-template or apply-templates on the same node)"""
+    if kind == "call":
+        return sty("<xsl:template match='/'><xsl:call-template name='f'><xsl:with-param name='k' select='$n'/></xsl:call-template></xsl:template>"
+                   "<xsl:template name='f'><xsl:param name='k'/><xsl:if test='$k &gt; 0'><xsl:call-template name='f'><xsl:with-param name='k' select='$k - 1'/>"
+                   "</xsl:call-template></xsl:if><xsl:if test='$k = 0'>done</xsl:if></xsl:template>", top="<xsl:output method='text'/><xsl:param name='n' select='10'/>")
+    if kind == "apply":
+        return sty("<xsl:template match='/'><xsl:apply-templates select='*'><xsl:with-param name='k' select='$n'/></xsl:apply-templates></xsl:template>"
+                   "<xsl:template match='*'><xsl:param name='k'/><xsl:if test='$k &gt; 0'><xsl:apply-templates select='.'><xsl:with-param name='k' select='$k - 1'/>"
+                   "</xsl:apply-templates></xsl:if><xsl:if test='$k = 0'>done</xsl:if></xsl:template>", top="<xsl:output method='text'/><xsl:param name='n' select='10'/>")
+    if kind == "call-element":      # builds a result tree as deep as the recursion
+        return sty("<xsl:template match='/'><xsl:call-template name='f'><xsl:with-param name='k' select='$n'/></xsl:call-template></xsl:template>"
+                   "<xsl:template name='f'><xsl:param name='k'/><d><xsl:if test='$k &gt; 0'><xsl:call-template name='f'><xsl:with-param name='k' select='$k - 1'/>"
+                   "</xsl:call-template></xsl:if></d></xsl:template>", top="<xsl:param name='n' select='10'/>")
+    # unbounded: must end in a reported error
+    if kind == "infinite-call":
+        return sty("<xsl:template match='/'><xsl:call-template name='f'/></xsl:template><xsl:template name='f'><xsl:call-template name='f'/></xsl:template>")
+    if kind == "infinite-apply":
+        return sty("<xsl:template match='/'><xsl:apply-templates select='.'/></xsl:template>")
+    if kind == "infinite-mutual":
+        return sty("<xsl:template match='/'><xsl:apply-templates select='*'/></xsl:template><xsl:template match='*'><xsl:call-template name='g'/></xsl:template>"
+                   "<xsl:template name='g'><x><xsl:apply-templates select='.'/></x></xsl:template>")
+    raise ValueError(kind)
